@@ -10,5 +10,9 @@ def main(argv):
         from . import repro
         print("DIGESTS " + json.dumps(repro.digests_for(int(argv[1]), int(argv[2]))))
         return 0
+    if argv[0] == "c20digest":
+        from . import toolscmp
+        print("DIGESTS " + json.dumps(toolscmp.jitter_digests(int(argv[1]), int(argv[2]))))
+        return 0
     from . import selftests
     return selftests.main(argv)
